@@ -4,12 +4,18 @@
 (*             idcol names the column that numbers the rows (the witness of stability)           *)
 (*   groupby : d.groupby(by [, grp = name]) and .ungroup([name]) of it                           *)
 (*   pivot   : d.pivot(x, y, z, agg) and, for agg = last, .unpivot(x, y, z) without None cells   *)
+(* (the three lines above are single-call chains; sessions: see below)                           *)
 (* Column names, y labels and the spelling of the key arguments (form: names / one list / a     *)
 (* single name) are part of the case; column labels of results arrive encoded (Regroup!LabelEnc).*)
-EXTENDS Regroup, Batch
+(*   session : one recorded HISTORY of calls and caller's edits on a store of caller-owned objects *)
+(*             (RegroupSession.tla): o.init = the store as first observed, o.steps = per step the  *)
+(*             call, the exception class or "", the whole store observed again after the step      *)
+(*             (the result last) and for unlist the real cmp of adjacent key cells of the result.  *)
+EXTENDS RegroupSession, Batch
 
 Verdict(o) ==
-    IF o.op = "pivot" /\ LabelClash(o.t, o.x, o.y) THEN ""          \* outside the domain: two columns of one name
+    IF o.op = "session" THEN SessionVerdict(o)
+    ELSE IF o.op = "pivot" /\ LabelClash(o.t, o.x, o.y) THEN ""          \* outside the domain: two columns of one name
     ELSE IF o.raised # "" THEN o.stage \o "_raises"            \* stage = the call of the chain that raised
     ELSE IF o.after # o.t THEN "operand_changed"
     ELSE CASE o.op = "listby" ->
